@@ -143,6 +143,18 @@ class Named:
     __str__ = __repr__
 
 
+class NamedCmp(Named):
+    """a predicate object of a query DSL: callable, and its comparison operators build further predicate
+    objects (truthy, like treepath's own `path.x == 1`) instead of answering True / False"""
+    __slots__ = ()
+
+    def _cmp(self, other):
+        return NamedCmp(lambda *a: False, "cmp(" + self.label + ")")
+
+    __eq__ = __ne__ = __lt__ = __le__ = __gt__ = __ge__ = _cmp
+    __hash__ = object.__hash__
+
+
 class Builder:
     """Builds treepath expressions and predicates of the closed language, logging every
     observable call into self.log."""
@@ -184,6 +196,8 @@ class Builder:
             return p[wc]
         if k == "gwc":
             return p.gwc
+        if k == "igwc":
+            return p[gwc]       # the bracket spelling of the generic wildcard (renders [*])
         if k == "rec":
             return p.rec
         if k == "par":
@@ -204,7 +218,8 @@ class Builder:
             finally:
                 log.append(["PX", depth])       # python-only marker: the predicate returned / raised
 
-        return Named(w, "L(" + repr(pred) + ")")
+        lab = "L(" + repr(pred) + ")"
+        return (NamedCmp if len(lab) % 3 == 0 else Named)(w, lab)
 
     def arg(self, a, depth=0):
         """the first argument of has / has_not, or an item of has_all / has_any.
